@@ -1,4 +1,5 @@
 import DoraModel.Match.Model
+import DoraModel.Match.ModelWT
 open Dora.Match
 
 /-! Line-protocol driver for C11. Request grammar: see harness/crates/c11/src/main.rs.
@@ -282,7 +283,11 @@ def parseSelector (ty : Ty) : SExp → Option Val
     | _ => none
   | _ => none
 
-def algoPart (ds : List DeclInfo) (env : Env) (arms : List Arm) : String :=
+/-- `!illtyped` if some arm's pattern is not one the type checker accepts at the scrutinee's type (`spatWT`, the
+    hypothesis of `accepted_no_fallthrough` / `convert_pattern_correct`): the real front end answers such a request
+    with a type error or — if it accepts it — the disagreement shows that `spatWT` is too narrow. -/
+def algoPart (ds : List DeclInfo) (env : Env) (ty : Ty) (arms : List Arm) : String :=
+  if !arms.all (fun a => spatWT env a.pat ty) then "!illtyped" else
   match checkMatch env fuelAmount arms with
   | .error (.panic site) => "!panic " ++ (site.splitOn " ").head!
   | .error .fuel => "!fuel"
@@ -303,7 +308,7 @@ def respond (line : String) : String :=
       match mkEnv ds, resolveTy ds tn, armsx.mapM (parseArm ds tn) with
       | some decls, some ty, some arms =>
         let env := envOf decls
-        let algo := algoPart ds env arms
+        let algo := algoPart ds env ty arms
         let ls := arms.flatMap (fun a => collectLits a.pat)
         let n := countVals decls ls 8 ty
         if n > 4096 then algo ++ " ## - ## -" else
@@ -317,7 +322,7 @@ def respond (line : String) : String :=
       match valsx.mapM (parseSelector ty) with
       | none => "!badreq"
       | some sel =>
-        let algo := algoPart [] (envOf []) arms
+        let algo := algoPart [] (envOf []) ty arms
         let ls := arms.flatMap (fun a => collectLits a.pat)
         -- truth: brute force over the literals that occur and one value that does not
         algo ++ " ## " ++ truthPart arms (valsOf [] ls ty) ++ " ## " ++ rtPart arms sel 400
